@@ -16,6 +16,8 @@ func registerMore(m map[string]propSpec) {
 	m["C07"] = propSpec{Level: "fault_enumeration", Engines: []engine{
 		{Harness: "faults", Overlay: "base", Name: "answers"},
 		{Harness: "faults", Overlay: "base", Name: "cuts", Shards: 2},
+		{Harness: "faults", Overlay: "base", Name: "cutsched", Shards: 8},
+		{Harness: "faults", Overlay: "base", Name: "repeat", Experiment: true},
 		{Harness: "regrace", Overlay: "base", Name: "regrace", Race: true},
 		{Harness: "reg", Overlay: "base", Name: "hist", Shards: 4},
 	}}
